@@ -266,9 +266,11 @@ func (d *memDir) RemoveAllChildren() error            { return unexpected("Remov
 func (d *memDir) Rename(oldName path.Component, newDirectory filesystem.Directory, newName path.Component) error {
 	return unexpected("Rename")
 }
-func (d *memDir) IsWritable() (bool, error)                          { return false, unexpected("IsWritable") }
-func (d *memDir) IsWritableChild(name path.Component) (bool, error)  { return false, unexpected("IsWritableChild") }
-func (d *memDir) Apply(arg interface{}) error                        { return unexpected("Apply") }
+func (d *memDir) IsWritable() (bool, error) { return false, unexpected("IsWritable") }
+func (d *memDir) IsWritableChild(name path.Component) (bool, error) {
+	return false, unexpected("IsWritableChild")
+}
+func (d *memDir) Apply(arg interface{}) error { return unexpected("Apply") }
 func (d *memDir) Mount(mountpoint path.Component, source, fstype string) error {
 	return unexpected("Mount")
 }
